@@ -77,6 +77,7 @@ pub fn gen_apps(t: &mut Tape, p: &Profile) -> Vec<AppSpec> {
             fingerprint: t.option(|t| t.ident(6)),
             cohort: if p.cohorts { [gen_opt_text(t), gen_opt_text(t), gen_opt_text(t)] } else { [None, None, None] },
             days: if p.cohorts { t.option(|t| t.u32_biased()) } else { None },
+            extras: if t.chance(1, 4) { (0..1 + t.choose(7)).map(|k| (format!("x-extra-{k}"), t.ident(5))).collect() } else { vec![] },
         })
         .collect()
 }
